@@ -26,7 +26,7 @@ def run(ctx: Ctx) -> int:
         "Outside: crashes that depend on the layout and everything else about the CLI, the other printers and files (no symbolic dimension) - their graph-level causes are checked under C04/C05/C12",
         [lambda: D.run_analysis, lambda: TxnType._get_asserted_transaction_types, lambda: SB.construct_stack_ast.__wrapped__, lambda: PTC.PrinterTransactionContext.print],
         {"immediates": "uint64 / 0..255"},
-        ["programs are one-block functions; larger shapes are covered by the S/G checks, whose workers report any tealer exception as a harness error"],
+        ["programs are one-block functions; larger shapes are covered by the S/G checks, whose workers report an exception raised inside tealer's own code as a `crash:tealer` violation (never attributed to a listed finding)"],
         timeout_quick=200, timeout_thorough=600,
     )
 
